@@ -251,10 +251,24 @@ func (s *Sched) Finish(me int) {
 // real synchronisation (e.g. a channel) before reading their results.
 func (s *Sched) AwaitAll() (done uint32, aborted bool) {
 	all := uint32(1<<uint(s.n)) - 1
+	spins := 0
+	last := s.ld(offStep)
+	lastDone := s.ld(offDone)
 	for {
 		d := s.ld(offDone)
 		if d == all {
 			return d, false
+		}
+		// the same no-progress rule as in Wait, for the case where the blocked worker is the last
+		// one alive and nobody else is parked to notice
+		spins++
+		if spins&0xfff == 0 {
+			if cur := s.ld(offStep); cur != last || d != lastDone {
+				last, lastDone, spins = cur, d, 0
+			} else if spins >= SpinLimit && atomic.LoadInt32(s.i32(offTurn)) >= 0 {
+				s.st(offBlocked, uint32(spins))
+				s.st(offAbort, 1)
+			}
 		}
 		if s.ld(offAbort) != 0 {
 			// give parked workers a chance to observe the abort and leave
